@@ -336,7 +336,11 @@ GOOD_MAGS = ('0', '1', '7', '8', '79', '7.9', '.9', '0.1', '1.5', '1023',
              '1024', '1.000', '00012', '0.001', '.125', '12.375', '3', '999',
              '1000', '0.5', '2.5', '1.0000000001', '4.4', '3.1', '0.0',
              '123456789012345678901234567890', '9007199254740993',
-             '0.333333333333333333', '65536', '.0009765625')
+             '0.333333333333333333', '65536', '.0009765625',
+             # long texts: hundreds of leading zeros or fractional digits
+             # (the quantity itself stays small)
+             '0' * 320 + '64', '1.' + '0' * 400, '0.' + '3' * 330,
+             '12.5' + '0' * 300)
 BAD_MAGS = ('', '79.', '7.9.9', 'asdf', '1..2', '1e3', '0x10', '1,5', '.',
             '1 ', ' 1', '1_0', '1-', 'inf')
 SIGNS = ('', '+', '-')
@@ -349,6 +353,10 @@ def stb_grid(col, mag_index):
     mag = mags[mag_index]
     mag_ok = mag in GOOD_MAGS
     prefixes = ('',) + ALL_PREFIXES + FOREIGN_PREFIXES
+    if len(mag) > 100:
+        # long texts: exact rational arithmetic on hundreds of digits is
+        # slow; a cross-section of the prefixes is enough here
+        prefixes = ('', 'k', 'K', 'Ki', 'M', 'Qi', 'Q', 'X', 'i')
     hist = {}
     n_nt = 0
     sampled = set()
